@@ -145,7 +145,7 @@ var executors = map[string]func(h *caseHdr, ev M, line []byte) any{}
 // specification looks at it).
 func crashOut(ev map[string]any, kind, where, msg string, ms int) any {
 	return M{"kind": kind, "panic": true, "where": where, "msg": msg, "ms": ms,
-		"merr": "", "uerr": "", "bytes": []any{}, "back": []any{}, "backUTC": true, "laws": []any{}, "desc": M{"have": false}, "cross": M{"have": false}}
+		"merr": "", "uerr": "", "bytes": []any{}, "back": []any{}, "backUTC": true, "laws": []any{}, "desc": M{"have": false}, "cross": M{"have": false}, "sane": true}
 }
 
 // ptrFor returns the pointer a codec's writer methods expect for the value held in pv (a pointer
@@ -307,7 +307,7 @@ func isRepeatedCodec(c plenccodec.Codec) bool {
 
 func execCodec(h *caseHdr, ev M) any {
 	out := M{"kind": "ok", "panic": false, "where": "", "msg": "", "merr": "", "uerr": "", "bytes": []any{}, "back": []any{},
-		"backUTC": true, "laws": []any{}, "desc": M{"have": false}, "cross": M{"have": false}}
+		"backUTC": true, "laws": []any{}, "desc": M{"have": false}, "cross": M{"have": false}, "sane": true}
 	var gt reflect.Type
 	var in reflect.Value
 	p := instanceFor(h)
@@ -331,7 +331,9 @@ func execCodec(h *caseHdr, ev M) any {
 		back := reflect.New(gt)
 		uerr := p.Unmarshal(data, back.Interface())
 		out["uerr"] = errStr(uerr)
+		abs.Corrupt = false
 		out["back"] = abs.Project(h.T, back.Elem())
+		out["sane"] = !abs.Corrupt
 		out["backUTC"] = allUTC(back.Elem())
 		// the value given to Marshal must be unchanged (C11 observes this on every case)
 		out["srcAfter"] = abs.Project(h.T, in.Elem())
